@@ -399,6 +399,30 @@ fn handle_hang(prop: &str, seed: u64, h: runner::HangReport, hang_ms: u64, repla
     }
 }
 
+/// up to two written-out runs per phase (the random phase first)
+fn pick_samples(all: &[J]) -> Vec<J> {
+    let mut phases: Vec<String> = Vec::new();
+    for x in all {
+        if let Some(p) = x.get("phase").and_then(|p| p.as_str()) {
+            if !phases.iter().any(|q| q == p) {
+                phases.push(p.to_string());
+            }
+        }
+    }
+    phases.sort_by_key(|p| if p == "random" { 0 } else { 1 });
+    let mut out = Vec::new();
+    for p in phases {
+        let mut v: Vec<&J> = all.iter().filter(|x| x.get("phase").and_then(|q| q.as_str()) == Some(p.as_str())).collect();
+        v.sort_by_key(|x| x.get("run_index").and_then(|i| i.as_i64()).unwrap_or(0));
+        let take = if p == "random" { 3 } else { 1 };
+        // prefer a later run over run 0 for variety
+        for x in v.iter().rev().take(take) {
+            out.push((*x).clone());
+        }
+    }
+    out
+}
+
 fn counts_by_name(names: &[&str], counts: &[u64]) -> J {
     J::Obj(
         names
@@ -459,7 +483,7 @@ fn evidence_json(
         .with("evaluations", J::Int(st.runs as i64))
         .with("distinct_nontrivial", J::Int(st.sigs_nontrivial.len() as i64))
         .with("rule", J::Str(rule_text(prop)))
-        .with("samples", J::Arr(st.samples.iter().take(8).cloned().collect()))
+        .with("samples", J::Arr(pick_samples(&st.samples)))
         .with("exhaustive", J::Bool(false))
         .with("profile", J::s(PROFILE))
         .with("phases", J::Arr(phase_desc.to_vec()))
